@@ -150,6 +150,17 @@ def sstep (T : STables) (s : Session) (op : SOp) : Session :=
 
 def srun (T : STables) (s : Session) (ops : List SOp) : Session := ops.foldl (sstep T) s
 
+/-- an operation that registers an input with module `j` -/
+def SOp.registersOn (j : Name) : SOp → Bool
+  | .register i _ => i == j
+  | .registerFailed i _ => i == j
+  | _ => false
+
+/-- an operation that creates module `j` -/
+def SOp.creates (j : Name) : SOp → Bool
+  | .create i _ _ => i == j
+  | _ => false
+
 /-! ## what can be observed -/
 
 /-- what a loaded section shows: every key with the items of its `Param` object -/
